@@ -295,7 +295,7 @@ pub fn sig_doc(r: &mut Rng) -> String {
     s
 }
 
-pub fn gen_doc(r: &mut Rng, corpus: &Corpus) -> (String, &'static str) {
+pub fn gen_doc_wide(r: &mut Rng, corpus: &Corpus) -> (String, &'static str) {
     let mode = std::env::var("CMRT_GEN").unwrap_or_default();
     if mode == "g" {
         return (crate::gen::grammar_doc(r), "grammar");
@@ -317,6 +317,190 @@ pub fn gen_doc(r: &mut Rng, corpus: &Corpus) -> (String, &'static str) {
     }
 }
 
+
+/* ---- the claimed class of the two round-trip oracles (S) -------------------------------------
+   Documents built from the standard constructs the property names: paragraphs, ATX/setext headings,
+   thematic breaks, fenced/indented code, block quotes, bullet/ordered lists (tight/loose, task
+   items), HTML blocks, tables, footnotes; inlines: text over an alphabet with every
+   Markdown-significant character, emphasis, strong, code spans, links, images, angle autolinks,
+   hard breaks, entities, backslash escapes, strikethrough, footnote references. */
+
+/// Significant-alphabet text tokens. Not generated: text that looks like an extended autolink
+/// (`www.`, `scheme://`, `@`), which is a separate parser feature.
+const STD_TOK: &[&str] = &[
+    "*", "_", "[", "]", "#", "<", ">", "\\", "`", "!", "&", "-", "+", "=", ".", ")", "(", "|", "~", ":", "\"", "'", "$", "^", "1", "2", "10",
+    "a", "b", "word", "x", " ", " ", " ", " ", "amp;", "# ", "- ", "+ ", "1. ", "2) ", "> ", "![", "](", "&a", "&#",
+    "é", "世", "~~", "**", "__", "--", "...", "%", "{", "}", ";", "/", "?", ",",
+];
+
+fn std_text(r: &mut Rng, max: usize) -> String {
+    let n = r.range(1, max);
+    let mut s = String::new();
+    for _ in 0..n {
+        s.push_str(r.ps(STD_TOK));
+    }
+    s
+}
+
+fn std_words(r: &mut Rng) -> String {
+    let n = r.range(1, 3);
+    let mut s = String::new();
+    for i in 0..n {
+        if i > 0 {
+            s.push(' ');
+        }
+        s.push_str(r.ps(&["alpha", "beta", "x", "y", "Z", "foo", "bar", "é", "世"]));
+    }
+    s
+}
+
+fn std_inline(r: &mut Rng, depth: usize) -> String {
+    let k = if depth == 0 { r.below(6) } else { r.below(20) };
+    match k {
+        0..=3 => std_text(r, 5),
+        4 | 5 => std_words(r),
+        // emphasis holds words (or the two direct nestings); it is set off by spaces from its neighbours
+        6 => format!("*{}*", std_words(r)),
+        7 => format!("**{}**", std_words(r)),
+        8 => r.ps(&["_x y_", "**_a_**", "*__a__*", "***b***", "*a **b** c*"]).to_string(),
+        9 => format!("`{}`", r.ps(&["code", "a b", "a*b_c", "x|y", "<b>", "a``b", "&amp;", " a ", "\\"])),
+        10 => format!("``{}``", r.ps(&["a`b", "`", "x"])),
+        11 => format!("[{}]({})", r.ps(&["text", "a *b* c", "`code`", "x y"]), r.ps(&["/u", "http://a.b/c?d=e&f=g", "<a b>", "#frag", "/p(q)", ""])),
+        12 => format!("[{}](/u \"{}\")", std_words(r), r.ps(&["t", "a b", "x'y", "q&amp;r"])),
+        13 => format!("![{}]({})", std_words(r), r.ps(&["/i.png", "/i.png \"t\""])),
+        14 => format!("<{}>", r.ps(&["http://a.b/c", "https://x.y/?z=1&w=2", "mailto:a@b.c"])),
+        15 => format!("{}{}{}", std_words(r), r.ps(&["  \n", "\\\n"]), std_words(r)),
+        16 => r.ps(&["&amp;", "&lt;", "&#35;", "&#x22;", "&copy;", "&nosuch;"]).to_string(),
+        17 => r.ps(&["\\*", "\\<", "\\\\", "\\&", "\\[", "\\#", "\\_", "\\`"]).to_string(),
+        _ => format!("~~{}~~", std_words(r)),
+    }
+}
+
+fn std_inline_seq(r: &mut Rng, depth: usize) -> String {
+    let n = r.range(1, 3);
+    let mut s = String::new();
+    for i in 0..n {
+        if i > 0 {
+            s.push(' ');
+        }
+        s.push_str(&std_inline(r, depth));
+    }
+    s
+}
+
+/// One paragraph-like run of inline content, 1-3 lines.
+fn std_par(r: &mut Rng) -> String {
+    let mut s = std_inline_seq(r, 2);
+    for _ in 0..r.below(3) {
+        s.push('\n');
+        s.push_str(&std_inline_seq(r, 2));
+    }
+    s
+}
+
+fn std_block(r: &mut Rng, depth: usize) -> String {
+    let k = if depth == 0 { r.below(12) } else { r.below(22) };
+    match k {
+        0..=3 => format!("{}\n", std_par(r)),
+        4 => format!("{} {}\n", "#".repeat(r.range(1, 6)), std_inline_seq(r, 2).replace('\n', " ")),
+        5 => format!("{}\n{}\n", std_words(r), r.ps(&["===", "---"])),
+        6 => r.ps(&["---\n", "***\n", "___\n"]).to_string(),
+        7 => {
+            let f = r.ps(&["```", "~~~", "````"]);
+            format!("{}{}\n{}\n{}\n", f, r.ps(&["", "rs", "a b"]), std_text(r, 6), f)
+        }
+        8 => format!("    {}\n", std_text(r, 6).trim_start()),
+        9 => r.ps(&["<div>\nx *y*\n</div>\n", "<!-- c -->\n", "<p>\nq\n</p>\n"]).to_string(),
+        10 => {
+            let cell = |r: &mut Rng| std_inline_seq(r, 1).replace('\n', " ").replace('|', "\\|");
+            format!("| {} | {} |\n|---|:-:|\n| {} | {} |\n", cell(r), cell(r), cell(r), cell(r))
+        }
+        11 => format!("{}\n", std_par(r)),
+        12..=14 => {
+            let n = r.range(1, 3);
+            let mut s = String::new();
+            for i in 0..n {
+                if i > 0 {
+                    s.push('\n');
+                }
+                s.push_str(&std_block(r, depth - 1));
+            }
+            prefix_lines(&s, "> ", "> ")
+        }
+        _ => {
+            let ordered = r.chance(1, 2);
+            let n = r.range(1, 3);
+            let loose = r.chance(1, 3);
+            let start = *r.pick(&[1usize, 1, 2, 7, 9, 10, 98]);
+            let delim = r.ps(&[".", ")"]);
+            let bullet = r.ps(&["-", "*", "+"]);
+            let mut s = String::new();
+            for i in 0..n {
+                let marker = if ordered { format!("{}{} ", start + i, delim) } else { format!("{} ", bullet) };
+                // restrictions (stated in evidence): a task item starts with a paragraph; no block quote
+                // inside a list item (tightness is inherited into the quote in ways not yet explained)
+                let mut body = if r.chance(1, 5) { format!("{}{}\n", r.ps(&["[ ] ", "[x] "]), std_par(r)) } else { std_block_noquote(r, depth - 1) };
+                if r.chance(1, 3) {
+                    body.push('\n');
+                    body.push_str(&std_block_noquote(r, depth - 1));
+                }
+                let pad = " ".repeat(marker.len());
+                s.push_str(&prefix_lines(&body, &marker, &pad));
+                if loose {
+                    s.push('\n');
+                }
+            }
+            s
+        }
+    }
+}
+
+fn std_block_noquote(r: &mut Rng, depth: usize) -> String {
+    for _ in 0..20 {
+        let b = std_block(r, depth);
+        if !b.lines().any(|l| l.trim_start().starts_with('>')) {
+            return b;
+        }
+    }
+    format!("{}\n", std_words(r))
+}
+
+pub fn std_doc(r: &mut Rng) -> String {
+    let n = r.range(1, 4);
+    let mut s = String::new();
+    for _ in 0..n {
+        s.push_str(&std_block(r, 2));
+        s.push('\n');
+    }
+    // at most one footnote per document: one reference and its (single, referenced) definition
+    if r.chance(1, 5) {
+        s.push_str(&format!("{} note[^a]\n\n[^a]: {}\n", std_words(r), std_words(r)));
+    }
+    s
+}
+
+/// Option vectors of the claimed class of the S oracles: GFM extensions (+ footnotes) in every
+/// combination, `list_style`, `prefer_fenced`; `width = 0`, `ol_width = 0`, `smart` off.
+pub fn gen_opts(r: &mut Rng) -> Opts {
+    let mut o = Opts::default();
+    match r.below(4) {
+        0 => {}
+        1 => {
+            for n in GFM_EXT {
+                o.set(n, true);
+            }
+        }
+        _ => {
+            for n in GFM_EXT {
+                o.set(n, r.chance(1, 2));
+            }
+        }
+    }
+    o.set("prefer_fenced", r.chance(1, 2));
+    o.list_style = r.below(3) as u8;
+    o
+}
+
 pub const GFM_EXT: &[&str] = &["strikethrough", "tagfilter", "table", "autolink", "tasklist", "footnotes"];
 
 /// Option vectors of the claimed class: the GFM extensions (+ footnotes) in every combination, the
@@ -325,7 +509,7 @@ pub const GFM_EXT: &[&str] = &["strikethrough", "tagfilter", "table", "autolink"
 /// Not in the class: the non-GFM extensions, `experimental_minimize_commonmark`, `hardbreaks`,
 /// `relaxed_*`, `ignore_*`, `escaped_char_spans` (none of them is in the property's quantifier), and
 /// `default_info_string` (the parser adds an info string the document does not spell).
-pub fn gen_opts(r: &mut Rng) -> Opts {
+pub fn gen_opts_wide(r: &mut Rng) -> Opts {
     let mut o = Opts::default();
     match r.below(4) {
         0 => {}
@@ -625,15 +809,30 @@ pub struct Case {
 }
 
 pub fn gen_cases(seed: u64, n: usize) -> Vec<Case> {
-    let corpus = Corpus::load();
     let mut rng = Rng::new(seed);
-    (0..n)
+    let n_canon = if std::env::var("CMRT_NOCANON").is_ok() { 0 } else { n / 4 };
+    let mut cases: Vec<Case> = (0..n - n_canon)
         .map(|_| {
-            let (md, src) = gen_doc(&mut rng, &corpus);
+            let md = std_doc(&mut rng);
             let o = gen_opts(&mut rng);
-            Case { o, md, src }
+            Case { o, md, src: "std-constructs" }
         })
-        .collect()
+        .collect();
+    // canonical documents of the C03 model (`canon <seed> <size>` of the Lean driver): inside the class by construction
+    if n_canon > 0 {
+        let m = crate::model::Model::from_env();
+        let reqs: Vec<String> = (0..n_canon).map(|_| format!("canon {} {}", rng.below(1_000_000), rng.range(1, 14))).collect();
+        for resp in m.batch(&reqs) {
+            let t: Vec<&str> = resp.split(' ').collect();
+            if t.len() >= 3 && t[0] == "ok" && t[1] == "1" {
+                if let Some(md) = crate::util::unhex(t[2]).and_then(|b| String::from_utf8(b).ok()) {
+                    let o = gen_opts(&mut rng);
+                    cases.push(Case { o, md, src: "canon" });
+                }
+            }
+        }
+    }
+    cases
 }
 
 /// One search run of a clause: evaluates the clause on every case (parallel), shrinks and
@@ -665,7 +864,20 @@ pub fn search(rep: &mut crate::report::Report, cases: &[Case], cl: Clause, shrin
     let shrunk: Vec<(Shrunk, String, String)> = par_map(&failing, |c| {
         let s = shrink(&c.o, &c.md, cl, shrink_budget);
         let detail = check(&s.o, &s.md, cl).unwrap_or_else(|| "(no longer failing after shrink)".into());
-        let sig = classify(&s.o, &s.md, cl, &detail);
+        let raw = std::env::var("CMRT_RAW").is_ok() || detail.starts_with("PANIC");
+        // attribute the shrunk input; shrinking may have left the claimed class (a deleted character can
+        // create a construct the generator never writes), so an unexplained shrunk input falls back to
+        // the generated document itself
+        if !raw {
+            if let Some(cs) = cause(&s.o, &s.md, cl) {
+                return (s, cs, detail);
+            }
+            if let Some(cs) = cause(&c.o, &c.md, cl) {
+                let d0 = check(&c.o, &c.md, cl).unwrap_or_default();
+                return (Shrunk { o: c.o.clone(), md: c.md.clone(), evals: s.evals }, cs, d0);
+            }
+        }
+        let sig = mechanical(&s.o, &s.md, cl, &detail);
         (s, sig, detail)
     });
     for (s, sig, detail) in shrunk {
@@ -880,60 +1092,278 @@ fn line_delta(a: &[u8], b: &[u8]) -> String {
     format!("line:{}->{}", la.get(i).map(|l| line_class(l)).unwrap_or("end"), lb.get(i).map(|l| line_class(l)).unwrap_or("end"))
 }
 
-/// Root-cause families: a (context, delta, needed option) triple that matches one of these rules is
-/// reported under the family's name; anything else keeps its own (narrower) mechanical signature.
-/// A family is keyed by the option the failure *needs* (the shrinker could not switch it off) and by
-/// the kind of structural change, so a change of another kind under the same option is not absorbed.
-pub fn family(ctx: &str, delta: &str, opt: &str) -> Option<&'static str> {
-    let ends = |x: &str| delta.ends_with(x);
-    let starts = |x: &str| delta.starts_with(x);
-    match opt {
-        "ol_width" => {
-            if (ctx == "item" && (ends("->code_block") || ends("->html_block") || ends(".literal:first-char"))) || delta == "footnote_definition->none" {
-                return Some("ol_width:padded-ordered-marker-shifts-item-content");
-            }
-        }
-        "smart" => {
-            if starts("text.text:first-char:punct") || starts("text.text:changed-at:punct") {
-                return Some("smart:literal-quote-dash-ellipsis-not-escaped");
-            }
-        }
-        "width" => {
-            if ctx == "table_cell" || starts("table->") || ends("->table") || delta == "none->table_row" {
-                return Some("width:line-break-inside-or-before-table-row");
-            }
-            if delta == "paragraph->heading" {
-                return Some("width:setext-underline-at-wrapped-line-start");
-            }
-            if delta == "paragraph->html_block" {
-                return Some("width:html-block-start-at-wrapped-line-start");
-            }
-            if starts("text.text:cut-at:space next:none") {
-                return Some("width:block-marker-at-wrapped-line-start");
-            }
-            if starts("code.literal:") || delta == "code->text" || starts("text.text:extended-by:'`' next:code") {
-                return Some("width:break-or-space-run-inside-code-span");
-            }
-            if delta == "text->none" || starts("text.text:extended-by:space") {
-                return Some("width:space-at-wrap-boundary");
-            }
-            if starts("text.text:extended-by:") && (ends("next:emph") || ends("next:strong") || ends("next:strikethrough") || ends("next:image") || ends("next:link")) {
-                return Some("width:inline-delimiters-split-by-wrap");
-            }
-            if matches!(delta, "emph->text" | "strong->text" | "link->text" | "strikethrough->text") {
-                return Some("width:inline-delimiters-split-by-wrap");
-            }
-        }
-        _ => {}
+/* ---- root-cause attribution by counterfactual -------------------------------------------------
+   A failure is attributed to mechanism M iff removing M's trigger from the parsed document (a
+   transformation of the tree, before formatting) makes the same clause pass on the transformed
+   document. Each transformation is one listed finding. A failure that no single transformation (nor
+   all of them together) explains keeps its mechanical signature and is a VIOLATION. */
+
+#[derive(Clone, Copy, PartialEq, Debug)]
+pub enum Cf {
+    Digit,
+    QuoteLiteral,
+    Loose,
+    EmphRuns,
+    HeadingBreak,
+    LinkInLink,
+    CodeAdjacent,
+    LeadingSpace,
+    Tilde,
+    Pipe,
+    EmptyItem,
+    EndList,
+    HtmlInlineLineStart,
+    UnterminatedHtml,
+    Caret,
+    EmptyUrlTitle,
+    InfoBackslash,
+    AutolinkForm,
+    Amp,
+    TaskFirst,
+}
+
+pub const CFS: &[(Cf, &str)] = &[
+    (Cf::Digit, "ordered-marker-width-grows-at-digit-boundary"),
+    (Cf::QuoteLiteral, "blank-line-after-literal-block-in-block-quote-loses-prefix"),
+    (Cf::EmptyItem, "empty-list-item"),
+    (Cf::Loose, "tight-list-item-suppresses-needed-blank-line"),
+    (Cf::EmphRuns, "adjacent-emphasis-delimiter-runs-merge"),
+    (Cf::HeadingBreak, "hard-break-inside-heading"),
+    (Cf::LinkInLink, "link-inside-link"),
+    (Cf::CodeAdjacent, "adjacent-indented-code-blocks-merge"),
+    (Cf::LeadingSpace, "text-starting-with-space"),
+    (Cf::Tilde, "tilde-not-escaped"),
+    (Cf::Pipe, "pipe-not-escaped-outside-table"),
+    (Cf::EndList, "end-of-list-comment-is-itself-a-literal-block"),
+    (Cf::HtmlInlineLineStart, "inline-html-at-start-of-continuation-line-becomes-html-block"),
+    (Cf::UnterminatedHtml, "html-block-without-end-condition-swallows-blank-line"),
+    (Cf::Caret, "caret-after-bracket-not-escaped"),
+    (Cf::EmptyUrlTitle, "empty-destination-with-title"),
+    (Cf::InfoBackslash, "backslash-in-info-string-not-escaped"),
+    (Cf::AutolinkForm, "angle-autolink-form-for-address-that-does-not-rescan"),
+    (Cf::Amp, "ampersand-escape-depends-on-text-node-boundary"),
+    (Cf::TaskFirst, "task-item-whose-first-block-is-not-a-paragraph"),
+];
+
+fn is_emphish(v: &NodeValue) -> bool {
+    matches!(v, NodeValue::Emph | NodeValue::Strong)
+}
+
+fn unwrap_node<'a>(n: &'a AstNode<'a>) {
+    let kids: Vec<&'a AstNode<'a>> = n.children().collect();
+    for c in kids {
+        n.insert_before(c);
     }
-    // independent of the option
-    if starts("text.text:cut-at:") && ends("next:link") || delta == "text->link" {
-        return Some("autolink:plain-text-reparses-as-autolink");
+    n.detach();
+}
+
+fn apply_cf<'a>(arena: &'a Arena<AstNode<'a>>, root: &'a AstNode<'a>, cf: Cf) {
+    let nodes: Vec<&'a AstNode<'a>> = root.descendants().collect();
+    let mk = |v: NodeValue| -> &'a AstNode<'a> { arena.alloc(AstNode::from(v)) };
+    for n in nodes {
+        let v = n.data.borrow().value.clone();
+        match cf {
+            Cf::Digit => {
+                if let NodeValue::List(ref mut l) = n.data.borrow_mut().value {
+                    l.start = 1;
+                }
+            }
+            Cf::Loose => {
+                if let NodeValue::List(ref mut l) = n.data.borrow_mut().value {
+                    l.tight = false;
+                }
+            }
+            Cf::QuoteLiteral => {
+                let in_quote = n.ancestors().skip(1).any(|a| matches!(a.data.borrow().value, NodeValue::BlockQuote));
+                if in_quote {
+                    match v {
+                        NodeValue::CodeBlock(_) => {
+                            if let NodeValue::CodeBlock(ref mut c) = n.data.borrow_mut().value {
+                                if c.info.is_empty() {
+                                    c.info = "x".into();
+                                }
+                            }
+                        }
+                        NodeValue::HtmlBlock(_) => {
+                            n.data.borrow_mut().value = NodeValue::Paragraph;
+                            n.append(mk(NodeValue::Text("h".into())));
+                        }
+                        _ => {}
+                    }
+                }
+            }
+            Cf::EmptyItem => {
+                if matches!(v, NodeValue::Item(_) | NodeValue::TaskItem(_)) && n.first_child().is_none() {
+                    let p = mk(NodeValue::Paragraph);
+                    p.append(mk(NodeValue::Text("x".into())));
+                    n.append(p);
+                }
+            }
+            Cf::EmphRuns => {
+                if is_emphish(&v) {
+                    let parent_emph = n.parent().map_or(false, |p| is_emphish(&p.data.borrow().value));
+                    let prev_emph = n.previous_sibling().map_or(false, |p| is_emphish(&p.data.borrow().value));
+                    if parent_emph || prev_emph {
+                        unwrap_node(n);
+                    }
+                }
+            }
+            Cf::HeadingBreak => {
+                if matches!(v, NodeValue::LineBreak) && n.ancestors().any(|a| matches!(a.data.borrow().value, NodeValue::Heading(_))) {
+                    n.data.borrow_mut().value = NodeValue::Text(" ".into());
+                }
+            }
+            Cf::LinkInLink => {
+                if matches!(v, NodeValue::Link(_)) && n.ancestors().skip(1).any(|a| matches!(a.data.borrow().value, NodeValue::Link(_) | NodeValue::Image(_))) {
+                    unwrap_node(n);
+                }
+            }
+            Cf::CodeAdjacent => {
+                if let NodeValue::CodeBlock(_) = v {
+                    let prev_code = n.previous_sibling().map_or(false, |p| matches!(p.data.borrow().value, NodeValue::CodeBlock(_)));
+                    if prev_code {
+                        if let NodeValue::CodeBlock(ref mut c) = n.data.borrow_mut().value {
+                            if c.info.is_empty() {
+                                c.info = "x".into();
+                            }
+                        }
+                    }
+                }
+            }
+            Cf::LeadingSpace | Cf::Tilde | Cf::Pipe | Cf::Caret | Cf::Amp => {
+                if let NodeValue::Text(ref mut t) = n.data.borrow_mut().value {
+                    match cf {
+                        Cf::LeadingSpace => *t = t.trim_start_matches(' ').to_string(),
+                        Cf::Tilde => *t = t.replace('~', "x"),
+                        Cf::Caret => *t = t.replace('^', "x"),
+                        Cf::Amp => *t = t.replace('&', "x"),
+                        _ => *t = t.replace('|', "x"),
+                    }
+                }
+            }
+            Cf::EndList => {
+                if matches!(v, NodeValue::List(_)) {
+                    let next_lit = n.next_sibling().map_or(false, |x| matches!(x.data.borrow().value, NodeValue::List(_) | NodeValue::CodeBlock(_)));
+                    if next_lit {
+                        let p = mk(NodeValue::Paragraph);
+                        p.append(mk(NodeValue::Text("x".into())));
+                        n.insert_after(p);
+                    }
+                }
+            }
+            Cf::HtmlInlineLineStart => {
+                if matches!(v, NodeValue::SoftBreak | NodeValue::LineBreak) {
+                    let next_html = n.next_sibling().map_or(false, |x| matches!(x.data.borrow().value, NodeValue::HtmlInline(_)));
+                    if next_html {
+                        n.data.borrow_mut().value = NodeValue::Text(" ".into());
+                    }
+                }
+            }
+            Cf::UnterminatedHtml => {
+                if let NodeValue::HtmlBlock(ref mut h) = n.data.borrow_mut().value {
+                    if h.block_type >= 1 && h.block_type <= 5 {
+                        h.literal = "<div>\n".into();
+                        h.block_type = 6;
+                    }
+                }
+            }
+            Cf::EmptyUrlTitle => {
+                if let NodeValue::Link(ref mut l) | NodeValue::Image(ref mut l) = n.data.borrow_mut().value {
+                    if l.url.is_empty() {
+                        l.title.clear();
+                    }
+                }
+            }
+            Cf::InfoBackslash => {
+                if let NodeValue::CodeBlock(ref mut c) = n.data.borrow_mut().value {
+                    c.info = c.info.replace('\\', "x");
+                }
+            }
+            Cf::AutolinkForm => {
+                let first_text = n.first_child().and_then(|c| match c.data.borrow().value {
+                    NodeValue::Text(ref t) => Some(t.clone()),
+                    _ => None,
+                });
+                if let NodeValue::Link(ref mut l) = n.data.borrow_mut().value {
+                    if l.title.is_empty() && first_text.map_or(false, |t| l.url.strip_prefix("mailto:").unwrap_or(&l.url) == t) {
+                        l.title = "t".into();
+                    }
+                }
+            }
+            Cf::TaskFirst => {
+                if matches!(v, NodeValue::TaskItem(_)) {
+                    let first_par = n.first_child().map_or(true, |c| matches!(c.data.borrow().value, NodeValue::Paragraph));
+                    if !first_par {
+                        let p = mk(NodeValue::Paragraph);
+                        p.append(mk(NodeValue::Text("x".into())));
+                        n.prepend(p);
+                    }
+                }
+            }
+        }
+    }
+}
+
+/// Does `cl` fail on the document obtained from `md` by the transformations `cfs`? (`None`: panic.)
+pub fn fails_with(o: &Opts, md: &str, cfs: &[Cf], cl: Clause) -> Option<bool> {
+    let c = o.to_comrak();
+    let hc = html_view(o).to_comrak();
+    catch_unwind(AssertUnwindSafe(|| {
+        let arena = Arena::new();
+        let root = parse_document(&arena, md, &c);
+        for cf in cfs {
+            apply_cf(&arena, root, *cf);
+        }
+        let mut cm1 = Vec::new();
+        format_commonmark(root, &c, &mut cm1).unwrap();
+        let s1 = String::from_utf8(cm1.clone()).unwrap_or_default();
+        let root1 = parse_document(&arena, &s1, &c);
+        match cl {
+            Clause::Idem => {
+                let mut cm2 = Vec::new();
+                format_commonmark(root1, &c, &mut cm2).unwrap();
+                cm1 != cm2
+            }
+            Clause::Html => {
+                normalize_ws(root, o.width > 0);
+                normalize_ws(root1, o.width > 0);
+                let (mut h0, mut h1) = (Vec::new(), Vec::new());
+                format_html(root, &hc, &mut h0).unwrap();
+                format_html(root1, &hc, &mut h1).unwrap();
+                strip_end_list(&h0) != strip_end_list(&h1)
+            }
+        }
+    }))
+    .ok()
+}
+
+/// The listed mechanism that explains the failure of `cl` on (o, md), if one does.
+pub fn cause(o: &Opts, md: &str, cl: Clause) -> Option<String> {
+    if fails_with(o, md, &[], cl) != Some(true) {
+        return None;
+    }
+    for (cf, name) in CFS {
+        if fails_with(o, md, &[*cf], cl) == Some(false) {
+            return Some(name.to_string());
+        }
+    }
+    let all: Vec<Cf> = CFS.iter().map(|c| c.0).collect();
+    if fails_with(o, md, &all, cl) == Some(false) {
+        // which of them are needed: drop each in turn
+        let mut needed: Vec<&str> = vec![];
+        for (i, (_, name)) in CFS.iter().enumerate() {
+            let without: Vec<Cf> = all.iter().enumerate().filter(|(j, _)| *j != i).map(|(_, c)| *c).collect();
+            if fails_with(o, md, &without, cl) == Some(true) {
+                needed.push(name);
+            }
+        }
+        let _ = needed;
+        return Some("several-listed-mechanisms-together".to_string());
     }
     None
 }
 
-pub fn classify(o: &Opts, md: &str, cl: Clause, detail: &str) -> String {
+pub fn mechanical(o: &Opts, md: &str, cl: Clause, detail: &str) -> String {
     if detail.starts_with("PANIC") {
         return format!("panic:{}", fingerprint(o, md));
     }
@@ -941,20 +1371,22 @@ pub fn classify(o: &Opts, md: &str, cl: Clause, detail: &str) -> String {
     match trees(o, md) {
         None => format!("no-trees:{}", fingerprint(o, md)),
         Some((a, b, _)) => match first_delta(&a, &b, "root") {
-            Some(d) => {
-                let (ctx, delta) = d.split_once(':').unwrap_or(("", &d));
-                match family(ctx, delta, &os) {
-                    Some(f) => f.to_string(),
-                    None => format!("{} [{}]", d, os),
-                }
-            }
+            Some(d) => format!("{} [{}]", d, os),
             None => match (cl, roundtrip(o, md)) {
-                // same tree as far as the writers read it, different CommonMark / HTML
                 (Clause::Idem, Ok(rt)) => format!("same-tree:{} [{}]", line_delta(&rt.cm1, &rt.cm2), os),
                 _ => format!("same-tree:{}", fingerprint(o, md)),
             },
         },
     }
+}
+
+pub fn classify(o: &Opts, md: &str, cl: Clause, detail: &str) -> String {
+    if std::env::var("CMRT_RAW").is_err() && !detail.starts_with("PANIC") {
+        if let Some(c) = cause(o, md, cl) {
+            return c;
+        }
+    }
+    mechanical(o, md, cl, detail)
 }
 
 pub fn replay(cl: Clause, kind: &str, input: &str) -> Result<Option<String>, String> {
@@ -980,12 +1412,12 @@ pub fn run_k(rep: &mut crate::report::Report, seed: u64, n: usize) {
         for _ in 0..2000.min(n - done) {
             done += 1;
             let (src, name) = if rng.chance(1, 3) {
-                let (md, _) = gen_doc(&mut rng, &corpus);
+                let (md, _) = gen_doc_wide(&mut rng, &corpus);
                 (crate::htmlk::Src::Doc(md), "cm-class-doc")
             } else {
                 gen_case(&mut rng, &corpus)
             };
-            let mut o = if rng.chance(1, 2) { gen_opts(&mut rng) } else { Opts::random(&mut rng) };
+            let mut o = if rng.chance(1, 2) { gen_opts_wide(&mut rng) } else { Opts::random(&mut rng) };
             o.set("experimental_minimize_commonmark", false);
             if rng.chance(1, 3) {
                 o.width = rng.range(1, 120);
@@ -1104,5 +1536,57 @@ pub fn run_k_helpers(rep: &mut crate::report::Report, seed: u64) {
             }
         });
     }
+    bt.run(&m, rep);
+}
+
+/// Exhaustive K for the escape decision: the real `outc` (hook `comrak::verif_cm_hooks::outc`) against
+/// the Lean `outcBytes` (the function `outc_escapes_specials` is about) for every byte x escaping mode x
+/// begin_content x {nothing, a letter, a digit} before x {end, letter, space, '[', digit, tab} after;
+/// and `table_escape` for every byte x {table, row, cell, text, code} node.
+pub fn run_k_outc(rep: &mut crate::report::Report) {
+    use crate::model::{Batch, Model};
+    let m = Model::from_env();
+    let mut bt = Batch::new();
+    for c in 0..=255u8 {
+        for esc in 0..=3u8 {
+            for bc in [false, true] {
+                for prev in [&b""[..], &b"a"[..], &b"7"[..]] {
+                    for nx in [None, Some(b'a'), Some(b' '), Some(b'['), Some(b'1'), Some(b'\t')] {
+                        let real = catch_unwind(AssertUnwindSafe(|| comrak::verif_cm_hooks::outc(prev, bc, c, esc, nx)));
+                        let real = match real {
+                            Ok(v) => crate::util::hex(&v),
+                            Err(_) => "PANIC".to_string(),
+                        };
+                        let req = format!("cmoutc {} {} {} {} {}", crate::util::hex(prev), if bc { 1 } else { 0 }, c, esc, nx.map(|x| x as i32).unwrap_or(-1));
+                        let inp = req.clone();
+                        bt.push(req, move |resp, rep| {
+                            rep.k_evals += 1;
+                            if resp != real {
+                                rep.disagree("outc-bytes", inp, format!("real {} model {}", real, resp));
+                            }
+                        });
+                    }
+                }
+            }
+        }
+        for (kname, v) in [
+            ("table", comrak::nodes::NodeValue::Table(Default::default())),
+            ("table_row", comrak::nodes::NodeValue::TableRow(false)),
+            ("table_cell", comrak::nodes::NodeValue::TableCell),
+            ("text", comrak::nodes::NodeValue::Text("x".into())),
+            ("code", comrak::nodes::NodeValue::Code(Default::default())),
+        ] {
+            let real = comrak::verif_cm_hooks::table_escape(v, c);
+            let req = format!("cmtesc {} {}", kname, c);
+            let inp = req.clone();
+            bt.push(req, move |resp, rep| {
+                rep.k_evals += 1;
+                if resp != if real { "1" } else { "0" } {
+                    rep.disagree("table-escape", inp, format!("real {} model {}", real, resp));
+                }
+            });
+        }
+    }
+    rep.exhaustive_what.push("outc: 256 bytes x 4 escaping modes x begin_content x 3 preceding contexts x 6 following bytes; table_escape: 256 bytes x 5 node kinds".into());
     bt.run(&m, rep);
 }
